@@ -38,21 +38,20 @@ def exhaustive(res, tier, wd):
         grid = [("cap0", consts(0)), ("cap1", consts(1)), ("cap2", consts(2)), ("unb", consts(UNB)),
                 ("noeh", consts(1, eh=False)), ("sampler", consts(1, handles=1, sampler=True))]
     else:
-        grid = [("cap0", consts(0)), ("cap1", consts(1)), ("cap2", consts(2)), ("cap3", consts(3, metrics=4)),
-                ("unb", consts(UNB)), ("noeh", consts(1, eh=False)), ("sampler", consts(1, handles=1, sampler=True)),
-                ("sampler2", consts(2, handles=2, sampler=True)),
-                ("h3", consts(2, metrics=3, handles=3)), ("m4", consts(1, metrics=4, handles=2)),
-                ("m5nomon", consts(2, metrics=5, handles=3, monitor=False))]
+        # measured: each of the three larger configurations is 1.0-1.3 M distinct states, 2.5-3 min with liveness
+        grid = [("cap0", consts(0)), ("cap1", consts(1)), ("cap2", consts(2)), ("unb", consts(UNB)),
+                ("noeh", consts(1, eh=False)), ("sampler", consts(1, handles=1, sampler=True)),
+                ("cap3", consts(3, metrics=4)), ("h3", consts(2, metrics=3, handles=3)), ("m4", consts(1, metrics=4, handles=2))]
 
     def one(item):
         name, c = item
         def go():
-            r, out = tlc("MC_Queue", cfgfile(wd, "mc-" + name, c), wd, workers=4, timeout=3000, tag="mcq" + name)
+            r, out = tlc("MC_Queue", cfgfile(wd, "mc-" + name, c), wd, workers=5, timeout=3000, tag="mcq" + name)
             if not r["ok"] or r["violated"] or r["errors"]:
                 r["tail"] = out[-2000:]
             return r
         return tlc_cached("queue-mc-%s-%s" % (name, json.dumps(c, sort_keys=True)), go, deps=QDEPS)
-    rs = pmap(one, grid, par=4)
+    rs = pmap(one, grid, par=3)
     for (name, c), r in zip(grid, rs):
         if r.get("violated") or r.get("errors") or not r.get("ok"):
             raise ToolError("Queue.tla violates %s in config %s (model/monitor inconsistent): %s" % (r.get("violated"), name, r.get("tail", "")))
